@@ -1,11 +1,95 @@
-(* C11 - DAG queries and iteration order agree with the true edge set.  Property theorems only. *)
-From Coq Require Import List NArith Bool.
-From PieV Require Import Model.Dag Proofs.DagBasics.
+(* C11 - DAG queries and iteration order agree with the true edge set.  Property theorems only.
+   The true edge set of a well-formed graph is its kids lists; by C11_first_insertion it is, after any operation sequence,
+   the log of accepted and not yet removed insertions in insertion order. *)
+From Coq Require Import List NArith Bool Sorted.
+From PieV Require Import Model.Dag Proofs.DagLib Proofs.DagWF Proofs.DagPath Proofs.DagRun Proofs.DagViews Proofs.DagQueries Proofs.DagLog.
 Import ListNotations.
 Open Scope N_scope.
 
-(* Regression witness of the defect repaired by "fix: DAG::add_edge keeps the insertion position of an existing edge":
-   re-adding an existing edge keeps first-insertion order and the data given at first insertion. *)
+Theorem C11_contains_edge : forall (E : Type) (g : dag E) u v, WF g -> (contains_edge g u v = true <-> In v (kids_of g u)).
+Proof. exact @contains_edge_spec. Qed.
+Print Assumptions C11_contains_edge.
+
+Theorem C11_transitive : forall (E : Type) (g : dag E) u v b,
+  WF g -> contains_transitive_edge g u v = Some b -> (b = true <-> path g u v).
+Proof. exact @contains_transitive_edge_spec. Qed.
+Print Assumptions C11_transitive.
+
+Theorem C11_adjacency : forall (E : Type) (g : dag E), WF g ->
+  (forall u, map fst (get_outgoing_edges g u) = kids_of g u /\ forall v e, In (v, e) (get_outgoing_edges g u) -> e = get_edata g u v /\ e <> None) /\
+  (forall v, map fst (get_incoming_edges g v) = pars_of g v /\ forall u e, In (u, e) (get_incoming_edges g v) -> e = get_edata g u v /\ e <> None) /\
+  (forall u v, In v (map fst (get_outgoing_edges g u)) <-> In u (map fst (get_incoming_edges g v))).
+Proof.
+  intros E g W. split; [intros u; apply outgoing_spec; exact W|]. split; [intros v; apply incoming_spec; exact W|].
+  intros u v. apply adjacency_symmetric. exact W.
+Qed.
+Print Assumptions C11_adjacency.
+
+(* iteration order = order of first insertion (since the last removal), data = the data given at that insertion,
+   for every operation sequence, including re-insertion of an existing edge *)
+Theorem C11_first_insertion : forall (E : Type) (ops : list (gop E)), run_ok empty ops ->
+  let g := grun ops in let log := run_log empty [] ops in
+  (forall u, kids_of g u = lkids log u) /\ (forall v, pars_of g v = lpars log v) /\ (forall u v, get_edata g u v = ldata log u v).
+Proof. exact @grun_first_insertion_order. Qed.
+Check C11_first_insertion : forall (E : Type) (ops : list (gop E)), run_ok empty ops ->
+  let g := grun ops in let log := run_log empty [] ops in
+  (forall u, kids_of g u = lkids log u) /\ (forall v, pars_of g v = lpars log v) /\ (forall u v, get_edata g u v = ldata log u v).
+Print Assumptions C11_first_insertion.
+
+Theorem C11_descendants_unsorted : forall (E : Type) (g : dag E) n l,
+  WF g -> descendants_unsorted g n = AOk l ->
+  NoDup (map snd l) /\ (forall x, In x (map snd l) <-> path g n x) /\ (forall r x, In (r, x) l -> r = rank_of g x).
+Proof. exact @descendants_unsorted_spec. Qed.
+Print Assumptions C11_descendants_unsorted.
+
+Theorem C11_descendants_sorted : forall (E : Type) (g : dag E) n l,
+  WF g -> descendants g n = AOk l ->
+  NoDup l /\ (forall x, In x l <-> path g n x) /\ StronglySorted (fun a b => rank_of g a < rank_of g b) l.
+Proof. exact @descendants_spec. Qed.
+Print Assumptions C11_descendants_sorted.
+
+Theorem C11_topo_cmp : forall (E : Type) (g : dag E) a b,
+  live g a = true -> live g b = true -> topo_cmp g a b = Some (N.compare (rank_of g a) (rank_of g b)).
+Proof. exact @topo_cmp_spec. Qed.
+Print Assumptions C11_topo_cmp.
+
+(* removals remove exactly the named edges and their data, and nothing else *)
+Theorem C11_remove_edge_exact : forall (E : Type) (g : dag E) s d, WF g ->
+  let g' := snd (remove_edge g s d) in
+  match fst (remove_edge g s d) with
+  | None => g' = g /\ (live g s = false \/ live g d = false \/ ~ In d (kids_of g s))
+  | Some e =>
+      get_edata g s d = Some e /\ In d (kids_of g s) /\
+      (forall m, live g' m = live g m) /\ (forall m, rank_of g' m = rank_of g m) /\
+      (forall m, kids_of g' m = if N.eqb m s then removeN d (kids_of g m) else kids_of g m) /\
+      (forall m, pars_of g' m = if N.eqb m d then removeN s (pars_of g m) else pars_of g m) /\
+      (forall u v, get_edata g' u v = if pair_eqb (s, d) (u, v) then None else get_edata g u v)
+  end.
+Proof. exact @remove_edge_view. Qed.
+Print Assumptions C11_remove_edge_exact.
+
+Theorem C11_remove_outgoing_exact : forall (E : Type) (g : dag E) s, WF g -> live g s = true ->
+  let g' := snd (remove_outgoing g s) in
+  map fst (infos g') = map fst (infos g) /\ last g' = last g /\
+  (forall m, live g' m = live g m) /\ (forall m, rank_of g' m = rank_of g m) /\
+  (forall m, kids_of g' m = if N.eqb m s then [] else kids_of g m) /\
+  (forall m, pars_of g' m = removeN s (pars_of g m)) /\
+  (forall u v, get_edata g' u v = if N.eqb u s then None else get_edata g u v).
+Proof. exact @remove_outgoing_view. Qed.
+Print Assumptions C11_remove_outgoing_exact.
+
+Theorem C11_remove_node_exact : forall (E : Type) (g : dag E) n, WF g -> live g n = true ->
+  let g' := snd (remove_node g n) in
+  fst (remove_node g n) = true /\
+  (forall m, live g' m = if N.eqb m n then false else live g m) /\
+  (forall m, kids_of g' m = if N.eqb m n then [] else removeN n (kids_of g m)) /\
+  (forall m, pars_of g' m = if N.eqb m n then [] else removeN n (pars_of g m)) /\
+  (forall m, m <> n -> rank_of g' m = if N.ltb (rank_of g n) (rank_of g m) then rank_of g m - 1 else rank_of g m) /\
+  (forall u v, get_edata g' u v = if N.eqb u n || N.eqb v n then None else get_edata g u v).
+Proof. exact @remove_node_view. Qed.
+Print Assumptions C11_remove_node_exact.
+
+(* regression witness of the defect repaired by "fix: DAG::add_edge keeps the insertion position of an existing edge" *)
 Example C11_readd_keeps_first_insertion_witness :
   get_outgoing_edges (grun [GAddNode; GAddNode; GAddNode; GAddEdge 0 1 10; GAddEdge 0 2 20; GAddEdge 0 1 30]) 0
   = [(1, Some 10); (2, Some 20)].
